@@ -400,3 +400,10 @@ CHECKS["C04"]["rule"] += (" Stage flushrace (Model/CorrSnap.v): 4000-24000 keys 
                           "(SELECT fa FROM t GROUP BY _), then FlushAll in the background while memstore-inclusive SELECT * ... LIMIT 1 queries are started back to back "
                           "until it ends; the probe must return the same rows afterwards, again after a time-ranged grouped query and a second flush, and from "
                           "disk only. non-trivial: at least one query started during the flush.")
+
+# stage `offs`: the real common.OffsetsBySource against Model/Offsets.v (Proofs/OffsetsP.v)
+for _p, _salt in (("C02", 5102), ("C12", 5112)):
+    CHECKS[_p]["stages"] = CHECKS[_p]["stages"] + [dict(sub="offs", quick=2000, thorough=60000, shrink=["a", "b"], seed_salt=_salt)]
+    CHECKS[_p]["rule"] += (" Stage offs (Model/Offsets.v): 2000 pairs of offset maps (0-4 of 5 sources, file sequences and positions 0-3 so that ties and "
+                           "equal offsets abound, one map in six nil) and a limit; the real OffsetsBySource.Advance and LimitAge (entries sorted by source, nil-ness) "
+                           "against the model. non-trivial: both maps non-empty.")
